@@ -376,6 +376,7 @@ def build(p):
              '_msgpack_ext_unpack', '_bytes_ndarray_to_bytes', '_object_ndarray_from_bytes',
              'msgpack_serialize', 'msgpack_deserialize'):
     p.native(fn, D, 'roundtrip')
+  p.native('msgpack_deserialize', D, 'sequence')
   p.native('np_axioms', D, 'axioms')     # the assumed NumPy facts are themselves tested on concrete dtypes on every run
   g, codes = globals_(p)
   exs = {n: p.extract(F, n) for n in (
@@ -503,6 +504,10 @@ def build(p):
                detail='native complex scalars round-trip as (real, imag)')
   p.verify('_msgpack_ext_pack/_unpack[complex]', eng, body_complex)
 
+  # (de)serialisation is a function of the bytes / value of THIS call: no function of the module keeps state between calls
+  # (a module-level streaming Unpacker would hand the leftovers of a failed call to the next one)
+  from . import C10
+  C10.v_frames(p, files=['fedjax/core/serialization.py'], min_sites=0)
   # "a checkpointed server state loads back equal to the saved one": the checkpoint functions under their C09 contracts
   # (save_state / load_state round trip over the FS model, path listing, newest wins, save_checkpoint keeps the file it
   # has just written whenever its round is >= every existing one - the same round saved again included)
